@@ -656,7 +656,8 @@ func bbQuiet(budget time.Duration) bool {
 }
 
 // bbHeldThenMoved plays the history in which the box's periodic count of held records (the ticker of the started box)
-// matters: at INIT(h,r+1) the nodes that moved to the next round split between several facts and at least one of their
+// matters: INIT(h,r) is decided; at INIT(h,r+1) the nodes that moved to the next round all the same (their ballots carry the
+// INIT or ACCEPT draw voteproof of round r) split between several facts and at least one of their
 // ballots carries expels, so the result is a draw whose expels can not be counted yet and the box holds that voteproof back;
 // meanwhile ACCEPT(h,r) is decided (the remaining ballots arrive, or the consensus states set the last point from the
 // voteproof they got elsewhere); sometimes the next height's first INIT also ends in such a held draw; then the box runs
@@ -693,11 +694,18 @@ func bbHeldThenMoved(t *rapid.T, w *bbWorld, check func(), judge func([]base.Vot
 	// whether every ballot was voted and the exact tally of them is a draw (then the box is expected to hold the voteproof).
 	hold := func(hh int64, rr uint64, absent int) (expectHeld bool) {
 		ways := rapid.IntRange(2, 3).Draw(t, "heldWays")
-		kinds := rapid.SampledFrom([][]string{{"initExpel", "init", "initX"}, {"initExpel", "initX", "initY"}, {"init", "initExpel", "initX"}, {"initX", "initY", "initExpel"}}).Draw(t, "heldKinds")[:]
+		kinds := rapid.SampledFrom([][]string{{"initExpel", "init", "initX"}, {"initExpel", "initX", "initY"}, {"init", "initExpel", "initX"}, {"initX", "initY", "initExpel"}}).Draw(t, "heldKinds")
 		expelBy := rapid.SampledFrom([]string{"full", "full", "full", "one"}).Draw(t, "heldExpelBy")
 
 		if ways == 2 && kinds[2] == "initExpel" {
 			kinds = []string{kinds[2], kinds[0], kinds[1]}
+		}
+
+		// a ballot of a later round carries the draw voteproof of the round before: mostly that of its INIT stage (the nodes
+		// that saw the INIT stage end in a draw moved on at once), sometimes that of its ACCEPT stage
+		carry := ""
+		if rr > 0 && rapid.IntRange(0, 4).Draw(t, "heldCarriesACCEPTDraw") != 0 {
+			carry = "I"
 		}
 
 		var ds []bbBallotDesc
@@ -707,7 +715,7 @@ func bbHeldThenMoved(t *rapid.T, w *bbWorld, check func(), judge func([]base.Vot
 				continue
 			}
 
-			d := bbBallotDesc{Height: hh, Round: rr, Kind: kinds[j%ways], Node: i, ExpelBy: expelBy}
+			d := bbBallotDesc{Height: hh, Round: rr, Kind: kinds[j%ways] + carry, Node: i, ExpelBy: expelBy}
 			j++
 
 			// built (signed) beforehand: the ballots of a round arrive in a burst
@@ -732,6 +740,23 @@ func bbHeldThenMoved(t *rapid.T, w *bbWorld, check func(), judge func([]base.Vot
 		res, _ := bbTally(w.n, bbT10(w.th), counts)
 
 		return expectHeld && res == base.VoteResultDraw
+	}
+
+	// (0) mostly the box has seen INIT(h,r0) decided before (by ballots, or the consensus states set the last point)
+	switch rapid.IntRange(0, 5).Draw(t, "heldBefore") {
+	case 0:
+	case 1, 2:
+		vp := w.initVP(h, r0)
+		ok := w.box.SetLastPointFromVoteproof(vp)
+		w.history = append(w.history, fmt.Sprintf("setLastPoint %v majority=true -> %v", vp.Point(), ok))
+	default:
+		start := rapid.IntRange(0, w.n-1).Draw(t, "heldInitStart")
+
+		for i := 0; i < w.n; i++ {
+			vote(bbBallotDesc{Height: h, Round: r0, Kind: "init", Node: (start + i) % w.n, ExpelBy: "full"})
+		}
+
+		quiet()
 	}
 
 	// (1) INIT(h,r0+1) ends in a draw with expels that can not be counted: held. One node has not voted there yet.
